@@ -175,9 +175,11 @@ impl Indexable for ast::Def {
     type Output = ();
     fn index(&self, ctx: &mut IndexCtx) -> Option<Self::Output> {
         // a def is outlined under the enclosing defset only if both are written in the same file
-        // (the body of a defset may include another file)
+        // (the body of a defset may include another file); the defs of a multiclass are prototypes
+        // and belong to the multiclass, not to a defset around it
         let defset_id = ctx.scopes.current_defset_id().filter(|defset_id| {
-            ctx.symbol_map.defset(*defset_id).define_loc.file == ctx.current_file_id()
+            ctx.scopes.current_multiclass_id().is_none()
+                && ctx.symbol_map.defset(*defset_id).define_loc.file == ctx.current_file_id()
         });
 
         // a name that is computed (`def !strconcat(..)`, `def "a" # b`) makes an anonymous record
